@@ -174,11 +174,16 @@ def jac_guard(check, proj):
 
 
 def fd_column(check, proj):
+    for lin in (0, 1):
+        _fd_column(check, proj, lin)
+
+
+def _fd_column(check, proj, lin):
     c = proj.cls("integration.implicit")
     fq = proj.resolve(c, "calc_jacobian")
     loc = fq.loc()
-    q = fq.qualname
-    ai, f, jm = run_jacobian(proj, c)
+    q = fq.qualname + (" [linear model, first call]" if lin else "")
+    ai, f, jm = run_jacobian(proj, c, lin)
     one = {0: Fraction(1)}
     if not isinstance(jm, JacMat):
         check.undecided("FD-COLUMN", q, "self.jacobian is not built by element stores", loc)
@@ -190,9 +195,13 @@ def fd_column(check, proj):
     if any(f.data[e].form != {("Q0", e): one} for e in range(NEQ)):
         check.violation("FD-COLUMN", q, "the caller's field is modified by the perturbation (%s)" % f.data[0], loc, key="field-mutated")
     covered = set()
+    floors = set()
     rels = set()
     problems = []
     for (idx, v, sloc) in jm.stores:
+        if type(v).__name__ == "ColCopy":
+            problems.append(("copied", "at %s, on the path [%s], Jacobian columns are filled with %s instead of a finite difference with respect to their own cell: exact only for a translation-invariant operator (uniform mesh, periodic boundaries); with other meshes or boundary conditions the matrix is not dR/dQ" % (sloc, v.path, v.how)))
+            continue
         if not (isinstance(idx, tuple) and len(idx) == 2 and isinstance(v, FDQuot)):
             problems.append(("store", "unsupported Jacobian store at %s" % sloc))
             continue
@@ -245,6 +254,8 @@ def fd_column(check, proj):
             continue
         covered.add((qq, e))
         rels.add((v.eps.rel, v.eps.per_cell, v.eps.absval))
+        if v.eps.floor is not None:
+            floors.add(v.eps.floor)
     for kind, text in problems:
         check.violation("FD-COLUMN" if kind != "layout" else "LAYOUT-AGREE", q, text, loc, key=kind)
     if not problems:
@@ -254,6 +265,10 @@ def fd_column(check, proj):
         else:
             check.violation("FD-COLUMN", q, "only blocks %s of the Jacobian are filled" % sorted(covered), loc, key="coverage")
     # perturbation magnitude
+    for fl in sorted(floors):
+        check.violation("FD-STEP-ABS", q, "the perturbation is rel*max(mean|q|, %s): an absolute floor. For states of magnitude far below %s (small-amplitude data, other units) the step is not small relative to the state, the forward difference is no longer the derivative of a nonlinear operator (error O(floor/|q|)), and the step does not scale with a change of units" % (float(fl), float(fl)), loc, key="abs-floor")
+    if not floors:
+        check.ok("FD-STEP-ABS", q, "the perturbation is proportional to the state magnitude (no absolute constant enters it)", loc)
     for rel, per_cell, absval in rels:
         if not (per_cell and absval):
             check.violation("FD-STEP-MAG", q, "perturbation scale is %s of the data, not the mean absolute value (can vanish or scale with the mesh size)" % ("the signed mean" if per_cell else "the sum"), loc, key="scale")
@@ -331,7 +346,7 @@ def fd_step_zero(check, proj):
         check.undecided("FD-STEP-ZERO", fq.qualname, "Jacobian stores not found", fq.loc())
         return
     pure = [v.eps for (idx, v, sloc) in jm.stores if isinstance(v, FDQuot)]
-    if pure and all(type(e).__name__ == "EpsVal" for e in pure):
+    if pure and all(type(e).__name__ == "EpsVal" and e.floor is None for e in pure):
         check.violation("FD-STEP-ZERO", fq.qualname, "the perturbation of component q is rel*mean|data_q| with no positive floor: for a state with an identically zero component (momentum of a flow at rest) the step is 0 and the Jacobian column is 0/0 = NaN, so implicit / Crank-Nicolson / gear do not preserve a state at rest", fq.loc(), key="eps-zero")
     else:
         check.ok("FD-STEP-ZERO", fq.qualname, "perturbation has a positive floor", fq.loc())
